@@ -222,7 +222,7 @@ Section ValidateFail.
     fs_raised : option entry         (* raise_exceptions=True: the exception that left the loop *)
   }.
 
-  Definition fstep (vs : fstate) : fstate :=
+  Definition vstep_f (vs : fstate) : fstate :=
     match fs_todo vs with
     | [] => vs
     | n :: rest =>
@@ -263,12 +263,12 @@ Section ValidateFail.
     end.
 
   (* while to_verify: — and nothing more once an exception has left the loop *)
-  Fixpoint floop (fuel : nat) (vs : fstate) : fstate :=
+  Fixpoint vloop_f (fuel : nat) (vs : fstate) : fstate :=
     match fuel with
     | O => vs
     | S f => match fs_raised vs with
              | Some _ => vs
-             | None => match fs_todo vs with [] => vs | _ => floop f (fstep vs) end
+             | None => match fs_todo vs with [] => vs | _ => vloop_f f (vstep_f vs) end
              end
     end.
 
@@ -276,7 +276,7 @@ Section ValidateFail.
      again with an unverified precedent (Proofs/C12Fail.v) — a run that ends
      with a non-empty stack is outside the model *)
   Definition validate_f_from (s : state) (outs : list nat) : fstate :=
-    floop (length outs + edges W + 1)
+    vloop_f (length outs + edges W + 1)
           {| fs_st := s; fs_todo := rev outs; fs_verified := []; fs_report := [];
              fs_exc := []; fs_raised := None |}.
 
